@@ -171,3 +171,36 @@ func h15b(R int) {
 
 func H15b_q() { h15b(3) }
 func H15b_t() { h15b(4) }
+
+// H15c: every byte that Read returns - also together with an error - and every byte handed to Write reaches the
+// frame tracer of its direction exactly once (otherwise frames that arrive with the closing error, e.g. the
+// trailers before a TLS close_notify, are missing from the trace and frame reassembly loses its place).
+// Up to 4 bytes: they stay in the tracer's partial frame header (or client preface) buffer, where they can be counted.
+func H15c_q() {
+	under := &vConn{}
+	switch vInt("err", 0, 2) {
+	case 1:
+		under.err = errVerifConn
+	case 2:
+		under.err = vTimeoutErr{}
+	}
+	under.n = vInt("n", 0, 4)
+	isServer := vBool("isServer")
+	c := &tracingHTTP2Conn{Conn: under, isServer: isServer, collector: &http2RetryCollector{collector: &vNullCollector{}}}
+	c.readTracer = http2FrameTracer{c: c, isRequest: isServer}
+	c.writeTracer = http2FrameTracer{c: c, isRequest: !isServer}
+	seen := func(t *http2FrameTracer) int {
+		if t.isRequest {
+			return len(t.prefaceBytes) // the request direction starts with the 24-byte client preface
+		}
+		return len(t.prefix) // partial 9-byte frame header
+	}
+	var buf [4]byte
+	if vBool("write") {
+		_, _ = c.Write(buf[:])
+		vAssert(seen(&c.writeTracer) == 4 && seen(&c.readTracer) == 0, "Write hands the bytes it was given to the write-direction tracer (and only to it)")
+	} else {
+		n, _ := c.Read(buf[:])
+		vAssert(seen(&c.readTracer) == n && seen(&c.writeTracer) == 0, "Read hands exactly the bytes it returns to the read-direction tracer, also when it returns an error with them")
+	}
+}
